@@ -233,6 +233,21 @@ theorem splitVScale_prog (hr : IsRN q r) (f : Fmt) (xmb zb oneb cb invb nb : Nat
   exact ⟨_, _, rfl, this⟩
 
 set_option maxHeartbeats 2000000 in
+/-- the unscaled splitters on EVERY representable x (normal, subnormal, zero): xh + xl = x -/
+theorem splitV_all (hr : IsRN q r) (f : Fmt) (cb : Nat) {s : ℕ} (hC : (decode f cb).toRat? = some (2 ^ s + 1))
+    (hs1 : 1 ≤ s) (hsp : s < q.p) {x : ℚ} (hx : Rep q x) :
+    (∃ xh xl : ℚ, evalQ f r (splitV cb) splitVOuts [x] = some [xh, xl] ∧ xh + xl = x) ∧
+    (∃ xh xl : ℚ, evalQ f r (splitVU cb) splitVOuts [x] = some [xh, xl] ∧ xh + xl = x) := by
+  constructor
+  · rw [evalQ_splitV f r _ _ cb hC]
+    have := veltkamp_all hr 1 (Or.inl rfl) hs1 hsp hx
+    simp only [one_mul] at this
+    exact ⟨_, _, rfl, this⟩
+  · rw [evalQ_splitVU f r _ _ cb hC]
+    have := veltkamp_all hr (-1) (Or.inr rfl) hs1 hsp hx
+    simp only [neg_one_mul, neg_sub, sub_neg_eq_add] at this
+    exact ⟨_, _, rfl, this⟩
+
 theorem evalQ_mulDekkerScale (f : Fmt) (r : ℚ → ℚ) (x y C Xm iN N : ℚ) (xmb zb oneb cb invb nb : Nat)
     (hC : (decode f cb).toRat? = some C) (hXm : (decode f xmb).toRat? = some Xm) (hZ : (decode f zb).toRat? = some 0)
     (h1 : (decode f oneb).toRat? = some 1) (hi : (decode f invb).toRat? = some iN) (hN : (decode f nb).toRat? = some N) :
